@@ -6,24 +6,30 @@
    A manifest is an Avro file with one record per entry; the bounds travel in two map<string> fields
    whose keys are str(field id) and whose values are the JSON text _encode_bound returns (modelled as
    the (tag, payload) pair of Model/BoundPrim.v).  fastavro writes and reads a list of records and
-   their string maps exactly (assumption Avro-exact, validated by the harness on real manifests). *)
+   their string maps exactly (assumption Avro-exact, validated by the harness on real manifests).
+
+   The field ids here are INTS: what Schema.__post_init__ accepts (Proofs/SchemaIdsProofs.v, over the regenerated
+   guards).  Their keys are the real strings: Model/FieldKey.v str_of_Z (Python str(int)) and kdec (Python int(str));
+   that the two are inverse is PROVED (Proofs/FieldKeyProofs.v kdec_str_of_Z), not built into the key type.  What the
+   two dict comprehensions do to ids that are NOT ints (1 and "1" meet) is Model/FieldKey.v key_trip. *)
 From Coq Require Import ZArith List Bool String.
-Require Import DS.Model.Value DS.Model.BoundPrim.
+Require Import DS.Model.Value DS.Model.BoundPrim DS.Model.FieldKey.
 Import ListNotations.
 Open Scope Z_scope.
 
 Definition bmap := list (Z * value).                  (* Dict[int, Any] *)
 Definition ebound := (string * jpayload)%type.        (* json.dumps({"t": tag, "v": payload}) *)
-Inductive akey := AKey (id : Z).                      (* str(field id), an Avro map key *)
+Definition akey := list Z.                            (* str(field id), an Avro map key: a string (code points) *)
 Definition amap := list (akey * ebound).              (* Avro map<string> *)
 
 (* the bounds fields of a DataFile, and of a manifest entry record *)
 Record dfb := { df_lower : option bmap; df_upper : option bmap }.
 Record mrec := { r_status : Z; r_lower : option amap; r_upper : option amap }.
 
-(* str(k) on an int field id and int(k) on such a key: exact inverses *)
-Definition py_str_of_id (k : Z) : akey := AKey k.
-Definition py_int_of_key (k : akey) : Z := match k with AKey id => id end.
+(* str(k) on an int field id; int(k) on a key.  (A key int() refuses makes read_manifest_file raise: not reached for the keys
+   the writer produces from int ids -- Proofs/FieldKeyProofs.v py_int_of_str_of_id -- and rendered as 0 here.) *)
+Definition py_str_of_id (k : Z) : akey := str_of_Z k.
+Definition py_int_of_key (k : akey) : Z := match kdec k with IntOk z => z | _ => 0 end.
 
 (* truthiness of an Optional[dict]: None and {} are falsy *)
 Definition truthy {A} (m : option (list A)) : bool :=
